@@ -136,11 +136,11 @@ def Ty.isVoid : Ty → Bool
   | .void => true
   | _ => false
 
-/-- A field default: a literal, or a tag of the field's declared type (`ns`, `name`: the union, or the alias of a
-union, the field is declared with - `TagRef.union_data_type`). -/
+/-- A field default: a literal, or a tag of the field's declared type (`ty`: the union, or the alias of a union,
+the field is declared with - `TagRef.union_data_type`; always `.user` or `.alias`). -/
 inductive Dflt where
   | lit : Dflt
-  | tag (ns name tag : Name) : Dflt
+  | tag (ty : Ty) (tag : Name) : Dflt
 deriving Repr, DecidableEq, Inhabited
 
 structure Field where
@@ -182,7 +182,8 @@ structure AnnType where
 deriving Repr, DecidableEq, Inhabited
 
 /-- What `repr()` of a route attribute value evaluates when the module is imported: a plain literal nothing,
-a `TagRef` object the name `TagRef` (`TagRef(...)`), a `datetime` object the name `datetime`
+a `TagRef` object the names `TagRef`, `Union`, `UnionField` (`TagRef(Union('ns.U', [UnionField(...), ...]), 'tag')`),
+a `datetime` object the name `datetime`
 (`datetime.datetime(...)`: a method call on `datetime`). -/
 inductive AttrKind where
   | plain | tagRef | timestamp
@@ -486,21 +487,28 @@ def unionReflStmts (api : Api) (cur : Name) (d : DataType) : List Stmt :=
     Stmt.assign c (some (fmtFunc f.name)) none [here c, here c (some "_tagmap")]
   tagVals ++ perm ++ perCaller ++ symbols
 
-/-- `_generate_struct_attributes_defaults` / `_generate_python_value` -/
+/-- `_generate_python_value` of a tag reference: `[ns.]Class.tag` (`class_name_for_data_type` asserts a user type
+or an alias) -/
+def tagRef (cur : Name) (t : Ty) (tag : Name) : List Ref :=
+  match t with
+  | .user uns un => [qual cur uns (fmtClass un) (some (fmtVar tag))]
+  | .alias uns un => [qual cur uns (fmtClass un) (some (fmtVar tag))]
+  | _ => []
+
+/-- `_generate_struct_attributes_defaults` -/
 def defaultStmts (cur : Name) (d : DataType) : List Stmt :=
   let c := fmtClass d.name
   d.fields.filterMap fun f =>
     match f.dflt with
     | none => none
     | some .lit => some (.assign c (some (fmtVar f.name ++ ".default")) none [here c (some (fmtVar f.name))])
-    | some (.tag uns un tag) =>
-      some (.assign c (some (fmtVar f.name ++ ".default")) none
-        [here c (some (fmtVar f.name)), qual cur uns (fmtClass un) (some (fmtVar tag))])
+    | some (.tag t tag) =>
+      some (.assign c (some (fmtVar f.name ++ ".default")) none (here c (some (fmtVar f.name)) :: tagRef cur t tag))
 
 def attrRefs : List (Name × AttrKind) → List Ref
   | [] => []
   | (_, .plain) :: r => attrRefs r
-  | (_, .tagRef) :: r => here "TagRef" :: attrRefs r
+  | (_, .tagRef) :: r => here "TagRef" :: here "Union" :: here "UnionField" :: attrRefs r
   | (_, .timestamp) :: r => here "datetime" :: attrRefs r
 
 /-- `_generate_routes` -/
@@ -754,18 +762,15 @@ def allWithEarlier {α} (p : List α → α → Bool) : List α → List α → 
   | _, [] => true
   | earlier, x :: xs => p earlier x && allWithEarlier p (earlier ++ [x]) xs
 
-/-- the union (or alias ending in a union) `ns.name` has the VOID tag `tag`, own or inherited -/
-def tagAvailable (api : Api) : Nat → Name → Name → Name → Bool
-  | 0, _, _, _ => false
-  | n + 1, ns, name, tag =>
-    match api.findType ns name with
+/-- the union `t`, or the union the alias `t` ends in, has the VOID tag `tag`, own or inherited -/
+def tagOKTy (api : Api) : Nat → Ty → Name → Bool
+  | _, .user ns n, tag => match api.findType ns n with
     | some d => !d.isStruct && (allMembers api d).any (fun f => f.name == tag && f.ty.isVoid)
-    | none => match api.findAlias ns name with
-      | some a => match a.ty with
-        | .user ns' n' => tagAvailable api n ns' n' tag
-        | .alias ns' n' => tagAvailable api n ns' n' tag
-        | _ => false
-      | none => false
+    | none => false
+  | k + 1, .alias ns n, tag => match api.findAlias ns n with
+    | some a => tagOKTy api k a.ty tag
+    | none => false
+  | _, _, _ => false
 
 /-- every module-level name a namespace module binds (imports included) -/
 def bindNames (api : Api) (ns : Namespace) : List Name :=
@@ -797,9 +802,8 @@ def typeWF (api : Api) (ns : Namespace) (earlier : List DataType) (d : DataType)
   && nodupB ((allMembers api d).map (fmtFunc ·.name))
   -- a tag default names an available void tag of a visible union
   && d.fields.all (fun f => match f.dflt with
-      | some (.tag uns un tag) => tagAvailable api (api.nAliases + 1) uns un tag
-          && (uns == ns.name || ns.imports.contains uns)
-          && (if uns == ns.name then (api.findType uns un).isSome || aliasEndsInUser api api.nAliases (.alias uns un) else true)
+      | some (.tag t tag) => tagOKTy api (api.nAliases + 1) t tag && tyOK api ns t
+          && aliasEndsInUser api (api.nAliases + 1) t
       | _ => true)
   -- enumerated subtypes are local structs whose parent is `d`; the raw name is the class name
   && d.subtypes.all (fun (sns, sn) => sns == ns.name && (match api.findType sns sn with
@@ -841,15 +845,22 @@ def importEdges (api : Api) : List (Name × Name) :=
 def Acyclic (edges : List (Name × Name)) : Prop :=
   ∃ rank : Name → Nat, ∀ e ∈ edges, rank e.2 < rank e.1
 
-/-- Executable acyclicity test: repeatedly remove the nodes without outgoing edges to remaining nodes. -/
-def peel (edges : List (Name × Name)) : Nat → List Name → List Name
-  | 0, nodes => nodes
-  | n + 1, nodes =>
-    let keep := nodes.filter fun a => edges.any fun e => e.1 == a && nodes.contains e.2
-    if keep.length == nodes.length then nodes else peel edges n keep
+/-- Executable acyclicity test: number the namespaces by layers (layer 0 imports nothing, layer k+1 imports only
+lower layers); the import graph is acyclic when every edge goes down in that numbering. -/
+def layerRanks (edges : List (Name × Name)) : Nat → Nat → List Name → List (Name × Nat)
+  | 0, _, _ => []
+  | fuel + 1, k, nodes =>
+    let free := nodes.filter fun a => !(edges.any fun e => e.1 == a && nodes.contains e.2)
+    if free.isEmpty then []
+    else free.map (fun a => (a, k + 1)) ++ layerRanks edges fuel (k + 1) (nodes.filter fun a => !free.contains a)
+
+def rankFn (rs : List (Name × Nat)) (n : Name) : Nat := (rs.lookup n).getD 0
+
+def apiRanks (api : Api) : List (Name × Nat) :=
+  let nodes := api.namespaces.map (·.name)
+  layerRanks (importEdges api) nodes.length 0 nodes
 
 def acyclicB (api : Api) : Bool :=
-  let nodes := api.namespaces.map (·.name)
-  (peel (importEdges api) nodes.length nodes).isEmpty
+  (importEdges api).all fun e => decide (rankFn (apiRanks api) e.2 < rankFn (apiRanks api) e.1)
 
 end StoneVerif.DeclPy
